@@ -1,3 +1,4 @@
+import XPathV.Lemmas.NoCrashCompile
 import XPathV.Model.Api
 import XPathV.Lemmas.Facts
 /-!
@@ -62,5 +63,29 @@ theorem logical_select_finite (d : Doc) (cfg : ECfg) (op : String) (l r : Plan) 
   simp only [sel, bind, Except.bind] at h
   repeat (split at h <;> try cases h)
   all_goals simp
+
+/-! ## The safety theorem, closed up to the recorded `round()` finding -/
+
+/-- **C15 (partial only by the `round()` exclusion)**: whatever text `compile` accepts, if the text
+does not call `round`, then on every document (well-formed or not), every engine configuration and
+every context node, neither `Select` nor `Evaluate` ends in a Go runtime error: the only failures
+left are errors the package raises deliberately.  (Induction over all 27 plan constructors and the
+function library; the builder emits no nil sub-plan; variables and `namespace::` are compile errors.) -/
+theorem C15_main_without_round (cc : CompileCfg) (ns : Option (List (String × String))) (text : List Char) (p : Plan)
+    (h : compile cc ns text = .ok p) (hr : noRoundIn ns text) (d : Doc) (cfg : ECfg) (c : Ref) :
+    (∀ k, sel (F := F) d cfg p c ≠ .error (.crash k)) ∧ (∀ k, evalP (F := F) d cfg p c ≠ .error (.crash k)) :=
+  compile_no_crash cc ns text p h hr d cfg c
+
+/-- the exclusion is necessary — the known finding as a theorem: `round(1) = 1` ends in the
+"unknown value type: int" failure -/
+theorem round_finding_witness (d : Doc) (cfg : ECfg) (c : Ref) :
+    evalP (F := F) d cfg (.logical "=" (.func "round" .nil (.pcons (.constNum "1") .pnil)) (.constNum "1")) c
+      = .error (.crash .unknownType) :=
+  round_in_comparison_crashes d cfg c
+
+/-- for *any* clean plan (no nil sub-plan, no `round`), not only compiled ones -/
+theorem clean_plans_never_crash (d : Doc) (cfg : ECfg) (p : Plan) (c : Ref) (hp : p.clean = true) :
+    (∀ k, sel (F := F) d cfg p c ≠ .error (.crash k)) ∧ (∀ k, evalP (F := F) d cfg p c ≠ .error (.crash k)) :=
+  no_crash d cfg p c hp
 
 end XPathV.Theorems.C15
